@@ -52,12 +52,12 @@ package geom
 
 //@ func NewPolygon
 //@   ensures len(result.rings) == len(rings) && (len(rings) == 0 ==> result.ctype == 0) && fresh(result.rings)
-//@   ensures forall k :: 0 <= k && k < len(rings) ==> result.ctype <= rings[k].seq.ctype
-//@   loop 0 invariant -1 <= rangeindex && ctype <= 3 && (forall k :: 0 <= k && k <= rangeindex ==> ctype <= rings[k].seq.ctype)
+//@   ensures len(rings) > 0 ==> (HasZ(result.ctype) ==> (forall k :: 0 <= k && k < len(rings) ==> HasZ(rings[k].seq.ctype))) && (!HasZ(result.ctype) ==> (exists k :: 0 <= k && k < len(rings) && !HasZ(rings[k].seq.ctype))) && (HasM(result.ctype) ==> (forall k :: 0 <= k && k < len(rings) ==> HasM(rings[k].seq.ctype))) && (!HasM(result.ctype) ==> (exists k :: 0 <= k && k < len(rings) && !HasM(rings[k].seq.ctype)))
+//@   loop 0 invariant -1 <= rangeindex && ctype <= 3 && (HasZ(ctype) ==> (forall k :: 0 <= k && k <= rangeindex ==> HasZ(rings[k].seq.ctype))) && (!HasZ(ctype) ==> (exists k :: 0 <= k && k <= rangeindex && !HasZ(rings[k].seq.ctype))) && (HasM(ctype) ==> (forall k :: 0 <= k && k <= rangeindex ==> HasM(rings[k].seq.ctype))) && (!HasM(ctype) ==> (exists k :: 0 <= k && k <= rangeindex && !HasM(rings[k].seq.ctype)))
 //@   loop 1 invariant -1 <= rangeindex && rangeindex < len(rings) && ctype <= 3 && len(rings) == len(old(rings)) && offset(rings) == 0 && fresh(rings)
 //@   loop 1 invariant forall k :: 0 <= k && k <= rangeindex ==> LSInv(rings[k]) && rings[k].seq.ctype == ctype
 //@   loop 1 invariant forall k :: rangeindex < k && k < len(rings) ==> LSInv(rings[k])
-//@   loop 1 invariant forall k :: 0 <= k && k < len(old(rings)) ==> ctype <= old(rings)[k].seq.ctype
+//@   loop 1 invariant len(old(rings)) > 0 ==> ((HasZ(ctype) ==> (forall k :: 0 <= k && k < len(old(rings)) ==> HasZ(old(rings)[k].seq.ctype))) && (!HasZ(ctype) ==> (exists k :: 0 <= k && k < len(old(rings)) && !HasZ(old(rings)[k].seq.ctype))) && (HasM(ctype) ==> (forall k :: 0 <= k && k < len(old(rings)) ==> HasM(old(rings)[k].seq.ctype))) && (!HasM(ctype) ==> (exists k :: 0 <= k && k < len(old(rings)) && !HasM(old(rings)[k].seq.ctype))))
 
 //@ func forceCoordinatesTypeOfPointSlice
 //@   ensures len(result) == len(pts) && fresh(result) && (forall k :: 0 <= k && k < len(pts) ==> result[k].coords.Type == ctype && result[k].full == pts[k].full)
@@ -66,7 +66,9 @@ package geom
 
 //@ func NewMultiPoint
 //@   ensures len(result.points) == len(pts)
-//@   loop 0 invariant -1 <= rangeindex && ctype <= 3
+//@   ensures len(pts) > 0 ==> (HasZ(result.ctype) ==> (forall k :: 0 <= k && k < len(pts) ==> HasZ(pts[k].coords.Type))) && (!HasZ(result.ctype) ==> (exists k :: 0 <= k && k < len(pts) && !HasZ(pts[k].coords.Type))) && (HasM(result.ctype) ==> (forall k :: 0 <= k && k < len(pts) ==> HasM(pts[k].coords.Type))) && (!HasM(result.ctype) ==> (exists k :: 0 <= k && k < len(pts) && !HasM(pts[k].coords.Type)))
+//@   ensures len(pts) == 0 ==> result.ctype == 0
+//@   loop 0 invariant -1 <= rangeindex && ctype <= 3 && (HasZ(ctype) ==> (forall k :: 0 <= k && k <= rangeindex ==> HasZ(pts[k].coords.Type))) && (!HasZ(ctype) ==> (exists k :: 0 <= k && k <= rangeindex && !HasZ(pts[k].coords.Type))) && (HasM(ctype) ==> (forall k :: 0 <= k && k <= rangeindex ==> HasM(pts[k].coords.Type))) && (!HasM(ctype) ==> (exists k :: 0 <= k && k <= rangeindex && !HasM(pts[k].coords.Type)))
 
 //@ func MultiPoint.ForceCoordinatesType
 //@   ensures result.ctype == newCType && len(result.points) == len(m.points)
@@ -78,10 +80,13 @@ package geom
 
 //@ func NewMultiLineString
 //@   ensures len(result.lines) == len(lines)
-//@   loop 0 invariant -1 <= rangeindex && ctype <= 3
+//@   ensures len(lines) > 0 ==> (HasZ(result.ctype) ==> (forall k :: 0 <= k && k < len(lines) ==> HasZ(lines[k].seq.ctype))) && (!HasZ(result.ctype) ==> (exists k :: 0 <= k && k < len(lines) && !HasZ(lines[k].seq.ctype))) && (HasM(result.ctype) ==> (forall k :: 0 <= k && k < len(lines) ==> HasM(lines[k].seq.ctype))) && (!HasM(result.ctype) ==> (exists k :: 0 <= k && k < len(lines) && !HasM(lines[k].seq.ctype)))
+//@   ensures len(lines) == 0 ==> result.ctype == 0
+//@   loop 0 invariant -1 <= rangeindex && ctype <= 3 && (HasZ(ctype) ==> (forall k :: 0 <= k && k <= rangeindex ==> HasZ(lines[k].seq.ctype))) && (!HasZ(ctype) ==> (exists k :: 0 <= k && k <= rangeindex && !HasZ(lines[k].seq.ctype))) && (HasM(ctype) ==> (forall k :: 0 <= k && k <= rangeindex ==> HasM(lines[k].seq.ctype))) && (!HasM(ctype) ==> (exists k :: 0 <= k && k <= rangeindex && !HasM(lines[k].seq.ctype)))
 //@   loop 1 invariant -1 <= rangeindex && rangeindex < len(lines) && ctype <= 3 && len(lines) == len(old(lines)) && offset(lines) == 0 && fresh(lines)
 //@   loop 1 invariant forall k :: 0 <= k && k <= rangeindex ==> LSInv(lines[k]) && lines[k].seq.ctype == ctype
 //@   loop 1 invariant forall k :: rangeindex < k && k < len(lines) ==> LSInv(lines[k])
+//@   loop 1 invariant (HasZ(ctype) ==> (forall k :: 0 <= k && k < len(old(lines)) ==> HasZ(old(lines)[k].seq.ctype))) && (!HasZ(ctype) ==> (exists k :: 0 <= k && k < len(old(lines)) && !HasZ(old(lines)[k].seq.ctype))) && (HasM(ctype) ==> (forall k :: 0 <= k && k < len(old(lines)) ==> HasM(old(lines)[k].seq.ctype))) && (!HasM(ctype) ==> (exists k :: 0 <= k && k < len(old(lines)) && !HasM(old(lines)[k].seq.ctype)))
 
 //@ func MultiPolygon.ForceCoordinatesType
 //@   ensures result.ctype == newCType && len(result.polys) == len(m.polys)
@@ -90,10 +95,13 @@ package geom
 
 //@ func NewMultiPolygon
 //@   ensures len(result.polys) == len(polys)
-//@   loop 0 invariant -1 <= rangeindex && ctype <= 3
+//@   ensures len(polys) > 0 ==> (HasZ(result.ctype) ==> (forall k :: 0 <= k && k < len(polys) ==> HasZ(polys[k].ctype))) && (!HasZ(result.ctype) ==> (exists k :: 0 <= k && k < len(polys) && !HasZ(polys[k].ctype))) && (HasM(result.ctype) ==> (forall k :: 0 <= k && k < len(polys) ==> HasM(polys[k].ctype))) && (!HasM(result.ctype) ==> (exists k :: 0 <= k && k < len(polys) && !HasM(polys[k].ctype)))
+//@   ensures len(polys) == 0 ==> result.ctype == 0
+//@   loop 0 invariant -1 <= rangeindex && ctype <= 3 && (HasZ(ctype) ==> (forall k :: 0 <= k && k <= rangeindex ==> HasZ(polys[k].ctype))) && (!HasZ(ctype) ==> (exists k :: 0 <= k && k <= rangeindex && !HasZ(polys[k].ctype))) && (HasM(ctype) ==> (forall k :: 0 <= k && k <= rangeindex ==> HasM(polys[k].ctype))) && (!HasM(ctype) ==> (exists k :: 0 <= k && k <= rangeindex && !HasM(polys[k].ctype)))
 //@   loop 1 invariant -1 <= rangeindex && rangeindex < len(polys) && ctype <= 3 && len(polys) == len(old(polys)) && offset(polys) == 0 && fresh(polys)
 //@   loop 1 invariant forall k :: 0 <= k && k <= rangeindex ==> PolyInv(polys[k]) && polys[k].ctype == ctype
 //@   loop 1 invariant forall k :: rangeindex < k && k < len(polys) ==> PolyInv(polys[k])
+//@   loop 1 invariant len(old(polys)) > 0 ==> ((HasZ(ctype) ==> (forall k :: 0 <= k && k < len(old(polys)) ==> HasZ(old(polys)[k].ctype))) && (!HasZ(ctype) ==> (exists k :: 0 <= k && k < len(old(polys)) && !HasZ(old(polys)[k].ctype))) && (HasM(ctype) ==> (forall k :: 0 <= k && k < len(old(polys)) ==> HasM(old(polys)[k].ctype))) && (!HasM(ctype) ==> (exists k :: 0 <= k && k < len(old(polys)) && !HasM(old(polys)[k].ctype))))
 
 //@ func Polygon.InteriorRingN
 //@   requires 0 <= n && n + 1 < len(p.rings)
@@ -191,10 +199,6 @@ package geom
 //@ func MultiPolygon.TransformXY
 //@   trusted
 //@ func Point.TransformXY
-//@   trusted
-//@ func Polygon.forceOrientation
-//@   trusted
-//@ func MultiPolygon.forceOrientation
 //@   trusted
 //@ func GeometryCollection.forceOrientation
 //@   trusted
@@ -316,10 +320,6 @@ package geom
 //@   trusted
 //@ func MultiPolygon.Simplify
 //@   trusted
-//@ func LineString.PointOnSurface
-//@   trusted
-//@ func MultiLineString.PointOnSurface
-//@   trusted
 //@ func MultiPoint.PointOnSurface
 //@   trusted
 //@ func MultiPolygon.PointOnSurface
@@ -345,7 +345,19 @@ package geom
 //@ func GeometryCollection.Validate
 //@   trusted
 //@ func NewGeometryCollection
-//@   trusted
+//@   assumeinv
+//@   requires forall k :: 0 <= k && k < len(geoms) ==> GShape(geoms[k]) && CTypeOf(geoms[k]) < 4
+//@   ensures len(result.geoms) == len(geoms)
+//@   ensures len(geoms) == 0 ==> result.ctype == 0
+//@   ensures HasZ(result.ctype) ==> (forall k :: 0 <= k && k < len(geoms) ==> HasZ(CTypeOf(geoms[k])))
+//@   ensures HasM(result.ctype) ==> (forall k :: 0 <= k && k < len(geoms) ==> HasM(CTypeOf(geoms[k])))
+//@   loop 0 invariant -1 <= rangeindex && ctype <= 3
+//@   loop 0 invariant HasZ(ctype) ==> (forall k :: 0 <= k && k <= rangeindex ==> HasZ(CTypeOf(geoms[k])))
+//@   loop 0 invariant HasM(ctype) ==> (forall k :: 0 <= k && k <= rangeindex ==> HasM(CTypeOf(geoms[k])))
+//@   loop 1 invariant -1 <= rangeindex && rangeindex < len(geoms) && ctype <= 3 && len(geoms) == len(old(geoms)) && len(geoms) > 0 && offset(geoms) == 0 && fresh(geoms)
+//@   loop 1 invariant HasZ(ctype) ==> (forall k :: 0 <= k && k < len(old(geoms)) ==> HasZ(CTypeOf(old(geoms)[k])))
+//@   loop 1 invariant HasM(ctype) ==> (forall k :: 0 <= k && k < len(old(geoms)) ==> HasM(CTypeOf(old(geoms)[k])))
+//@   loop 1 assume forall k :: 0 <= k && k < len(geoms) ==> GShape(geoms[k]) && GInv(geoms[k])   // A-frame-rp: recursive invariant across stores into the fresh copy
 
 //@ func Geometry.appendDump
 //@   trusted
@@ -354,3 +366,30 @@ package geom
 
 //@ func GeometryCollection.NumTotalGeometries
 //@   trusted
+
+// ---- operations defined on XY only return XY geometries; orientation forcing keeps the type ----
+//@ func (*nearestPointAccumulator).consider
+//@   modifies n
+//@   ensures same(n.target, old(n.target))
+//@   ensures same(n.point, old(n.point)) || same(n.point, candidate)
+//@   ensures old(n.target.full) && candidate.full && !old(n.point.full) ==> same(n.point, candidate)
+
+//@ func LineString.PointOnSurface
+//@   ensures result.coords.Type == 0
+//@   loop 0 invariant 1 <= i && nearest.point.coords.Type == 0
+
+//@ func MultiLineString.PointOnSurface
+//@   ensures result.coords.Type == 0
+//@   loop 0 invariant 0 <= i && nearest.point.coords.Type == 0
+//@   loop 1 invariant 1 <= j && 0 <= i && i < len(m.lines) && nearest.point.coords.Type == 0
+//@   loop 2 invariant 0 <= i && nearest.point.coords.Type == 0
+
+//@ func Polygon.forceOrientation
+//@   ensures result.ctype == p.ctype && len(result.rings) == len(p.rings) && fresh(result.rings)
+//@   loop 0 invariant -1 <= rangeindex && rangeindex < len(p.rings) && len(orientedRings) == len(p.rings) && offset(orientedRings) == 0 && fresh(orientedRings)
+//@   loop 0 invariant forall k :: 0 <= k && k <= rangeindex ==> LSInv(orientedRings[k]) && orientedRings[k].seq.ctype == p.ctype
+
+//@ func MultiPolygon.forceOrientation
+//@   ensures result.ctype == m.ctype && len(result.polys) == len(m.polys) && fresh(result.polys)
+//@   loop 0 invariant -1 <= rangeindex && rangeindex < len(m.polys) && len(polys) == len(m.polys) && offset(polys) == 0 && fresh(polys)
+//@   loop 0 invariant forall k :: 0 <= k && k <= rangeindex ==> PolyInv(polys[k]) && polys[k].ctype == m.ctype
